@@ -315,6 +315,20 @@ def evaluate(case):
         raised = None
         try:
             args = [to_arg(M, c) for c in conds]
+            reuse = case.get("reuse") or 0
+            if reuse:
+                # condition objects are values: building a larger condition out of one (as its first or a later operand),
+                # or using one in another request, leaves it as it was
+                for a in args:
+                    if isinstance(a, M.SqlFilterCondition):
+                        always = ("tb.id", ">=", -10**12)
+                        if reuse == 1:
+                            M.SqlMethod._or(a, always)
+                        elif reuse == 2:
+                            M.SqlMethod._or(always, a, always)
+                        else:
+                            M.SqlMethod._or(M.SqlMethod._or(a, always), a)
+                        notes.add("condition_object_also_used_inside_another_condition")
             if case.get("lock_once"):
                 log.fail_next = True
                 notes.add("database_locked_at_first_attempt")
@@ -332,10 +346,13 @@ def evaluate(case):
                 if case.get("poison") is not None:
                     # the same method object first serves a request that fails (invalid condition, unknown column, more
                     # than one record for one()): nothing of it may stick
-                    pk, pentry = case["poison"]
+                    pk, pentry = case["poison"][:2]
                     bad = [("tb.s", "LIKE", 5), ("tb.id", "IN", 3), ("tb.nosuch", "=", 1), ("tb.id", ">=", -10**12)][pk % 4]
+                    # ... possibly after valid conditions of the same failing request
+                    pre = [[], [("tb.id", "<", -10**12)], [("tb.n", "=", 1), "tb.s IS NULL"],
+                           [M.SqlMethod._or(("tb.id", "IN", [-1, -2]))]][(case["poison"] + [0])[2] % 4]
                     try:
-                        getattr(m, ["one", "one_or_none", "list"][pentry % 3])(conn, bad)
+                        getattr(m, ["one", "one_or_none", "list"][pentry % 3])(conn, *pre, bad)
                     except Exception:   # noqa
                         pass
                     del log.calls[:]
@@ -551,7 +568,8 @@ def st_case(draw, max_conds=4, with_kwargs=True):
             "entry": draw(st.sampled_from(["list", "list", "all", "one", "one_or_none", "T_list", "T_wrap_list", "T_wrap_list",
                                            "T_one", "T_wrap_oon", "all_interleaved", "all_interleaved"])),
             "percent": draw(st.integers(0, 3)) == 0,
-            "poison": draw(st.none() | st.none() | st.tuples(st.integers(0, 3), st.integers(0, 2)).map(list)),
+            "poison": draw(st.none() | st.none() | st.tuples(st.integers(0, 3), st.integers(0, 2), st.integers(0, 3)).map(list)),
+            "reuse": draw(st.sampled_from([0, 0, 1, 2, 3])),
             "prior": draw(st.sampled_from([None, None, "asc", "desc", "n"])),
             "lock_once": draw(st.integers(0, 5)) == 0}
 
